@@ -246,6 +246,15 @@ def rule_r7(chk, p, t):
     C04.rule_r8(chk, p, t, rid="C11.R7")
 
 
+def rule_r8(chk, p, t):
+    # a ground site's inertial state is its Earth-fixed position turned by the Earth-orientation chain: reduction
+    # parameters and the sidereal rotation (shared instances of C04.R4 / C04.R5)
+    from rules import C04
+
+    C04.rule_r4(chk, p, t, rid="C11.R8")
+    C04.rule_r5(chk, p, t, rid="C11.R9")
+
+
 def run(chk, p, t):
     chk.explanation = (
         "Static decision of structural necessary conditions of C11: (R1) the ground dynamics' start datetime is the "
@@ -256,7 +265,7 @@ def run(chk, p, t):
         "re-derived after the year correction (shared instance of C05.R5). NOT decided: metre-level accuracy of the IAU-76 reduction, inertial velocity values."
     )
     chk.assumptions += ["timedelta(seconds=x) interprets x as seconds", "eci2ecef/ecef2eci are mutual inverses at equal instants (C04)"]
-    for fn in (rule_r1, rule_r2, rule_r3, rule_r4, rule_r5, rule_r6, rule_r7):
+    for fn in (rule_r1, rule_r2, rule_r3, rule_r4, rule_r5, rule_r6, rule_r7, rule_r8):
         rid = "C11.R" + fn.__name__[-1]
         if not chk.wants(rid):
             continue
